@@ -386,6 +386,47 @@ def unit_reuse(ctx):
     if not np.array_equal(again.valid, f.valid):
         ctx.fail("diff/reuse/validity-of-result-is-not-the-current-validity", f"after '{change}'", instance=inst)
 
+def unit_periodic_geometry(ctx):
+    """The derivative in a periodic direction on lattices whose faces are not representable (cell 0.1, 0.3, 0.7, 1/3,
+    3e-9 ...) and that start at the origin or far from it.  Differential oracle: the same values on a reference ring
+    with unit cells starting at 0.5 give D_ref; on the lattice under test the result must be D_ref / cell^order (the
+    stencils are translation invariant and homogeneous in the cell size) - in particular not shifted by a cell."""
+    L = ctx.choose("L", [5, 8, 10, 3])
+    cs = ctx.choose("cell", [0.3, 0.7, 0.1, 1.0 / 3.0, 3e-9, 2.5])
+    org = ctx.choose("origin-in-cells", [0.0, 1.0, -3.0, 77.0, 1e4 + 1])
+    order = ctx.choose("order", [1, 2])
+    pat = ctx.choose("validity", ["all", "one-hole", "two-runs"])
+    nd = ctx.choose("ndim", [1, 3])
+    valid = [True] * L
+    if pat == "one-hole":
+        valid[1] = False
+    elif pat == "two-runs":
+        valid[0] = False
+        valid[L // 2] = False
+    vals = C.tracer((L,), 2, ctx.seed)
+    vals[:, 1] = (np.arange(L) + 0.25) ** 2
+
+    def mk(cell, start):
+        if nd == 1:
+            mesh = df.Mesh(region=df.Region(p1=(start,), p2=(start + L * cell,)), n=(L,), bc="x")
+            return df.Field(mesh, nvdim=2, value=vals, valid=np.array(valid))
+        mesh = df.Mesh(region=df.Region(p1=(0.0, start, -1.0), p2=(2.0, start + L * cell, 1.0)), n=(2, L, 1), bc="y")
+        a = np.broadcast_to(vals[None, :, None, :], (2, L, 1, 2)).copy()
+        a[1] *= -2.0
+        return df.Field(mesh, nvdim=2, value=a, valid=np.broadcast_to(np.array(valid)[None, :, None], (2, L, 1)).copy())
+
+    d = "x" if nd == 1 else "y"
+    ctx.step(2, f"diff({d}, order={order}) on the lattice and on the unit reference ring")
+    got = mk(cs, org * cs).diff(d, order=order).array
+    ref = mk(1.0, 0.5).diff(d, order=order).array / cs ** order
+    ctx.observe(np.round(got * cs ** order, 9))
+    ctx.check()
+    scale = np.abs(vals).max() / cs ** order
+    if got.shape != ref.shape or np.any(np.abs(got - ref) > 1e-9 * (scale + np.abs(ref))):
+        w = tuple(int(i) for i in np.argwhere(np.abs(got - ref) > 1e-9 * (scale + np.abs(ref)))[0]) if got.shape == ref.shape else ()
+        ctx.fail("diff/periodic/depends-on-where-the-lattice-sits", f"cell {cs!r}, lattice starting at {org} cells: at {w} got "
+                 f"{got[w] if w else got.shape!r}, the unit reference ring gives {ref[w] if w else ref.shape!r} (scaled)", instance=ctx.key())
+
 
 def units(tier):
     return [
@@ -393,4 +434,5 @@ def units(tier):
         {"name": "embed", "fn": unit_embed, "bound": None},
         {"name": "keyword_bc", "fn": unit_keyword_bc, "bound": None},
         {"name": "reuse", "fn": unit_reuse, "bound": None},
+        {"name": "periodic_geometry", "fn": unit_periodic_geometry, "bound": None},
     ]
